@@ -3,39 +3,41 @@
    decoding logic and of the index / integer arithmetic of psutil's C sources and of the
    Python code around it), specification: C17/Spec.v.  What these theorems cannot say --
    anything about the compiled code itself -- is delegated to the sanitizer runs of
-   props/C17.py.  [fixed] = false is the code as it is, true the proposed repair. *)
+   props/C17.py.  Names without suffix are the model of the code as it is now (after the
+   repairs e85352e, a87b45e, 301715a, 0d52d5b); [_legacy] names model the code before them
+   and occur only in the theorems about the defects that were repaired. *)
 From PV Require Import C17.Spec C17.Proofs C17.ProofsMnt.
 
 (* ---------------------------------------------------------------- users() *)
-(* every file of well-formed login records, fields cut at their width (repaired code):
-   user, terminal, host (':0' / ':0.0' as localhost), start time and PID of exactly the
-   USER_PROCESS records *)
-Theorem C17_users_decode_fixed : forall rs,
-  forallb wf_urec rs = true -> users true (k_utmp_file rs) = MOk (spec_users rs).
-Proof. exact users_decode_fixed. Qed.
-Print Assumptions C17_users_decode_fixed.
-
-(* the code as it is gives the same answer when no string field of a USER_PROCESS record
-   fills its whole width *)
+(* every file of well-formed login records: user, terminal, host (':0' / ':0.0' as localhost),
+   start time and PID of exactly the USER_PROCESS records, each string cut at its field width;
+   in particular no read leaves a record *)
 Theorem C17_users_decode : forall rs,
-  forallb wf_urec rs = true -> forallb terminated rs = true ->
-  users false (k_utmp_file rs) = MOk (spec_users rs).
-Proof. exact users_decode_asis. Qed.
+  forallb wf_urec rs = true -> users (k_utmp_file rs) = MOk (spec_users rs).
+Proof. exact users_decode. Qed.
 Print Assumptions C17_users_decode.
 
-(* known finding: a full-width field is read across the field border ... *)
-Theorem C17_users_fullwidth_refuted : exists rs,
+(* fixed defect (e85352e): the legacy code was right only when no string field of a USER_PROCESS
+   record fills its whole width ... *)
+Theorem C17_users_legacy_decode : forall rs,
+  forallb wf_urec rs = true -> forallb terminated rs = true ->
+  users_legacy (k_utmp_file rs) = MOk (spec_users rs).
+Proof. exact users_legacy_decode. Qed.
+Print Assumptions C17_users_legacy_decode.
+
+(* ... a full-width field was read across the field border ... *)
+Theorem C17_users_legacy_fullwidth_refuted : exists rs,
   forallb wf_urec rs = true /\
-  exists rows, users false (k_utmp_file rs) = MOk rows /\ rows <> spec_users rs /\
+  exists rows, users_legacy (k_utmp_file rs) = MOk rows /\ rows <> spec_users rs /\
                map u_user rows = [repeat 85 32 ++ bs "example.org"].
-Proof. exact users_fullwidth_refuted. Qed.
-Print Assumptions C17_users_fullwidth_refuted.
+Proof. exact users_legacy_fullwidth_refuted. Qed.
+Print Assumptions C17_users_legacy_fullwidth_refuted.
 
 (* ... and, with no NUL in the rest of the record, past the end of the record *)
-Theorem C17_users_oob_refuted : exists rs,
-  forallb wf_urec rs = true /\ users false (k_utmp_file rs) = MOutOfBounds.
-Proof. exact users_oob_refuted. Qed.
-Print Assumptions C17_users_oob_refuted.
+Theorem C17_users_legacy_oob_refuted : exists rs,
+  forallb wf_urec rs = true /\ users_legacy (k_utmp_file rs) = MOutOfBounds.
+Proof. exact users_legacy_oob_refuted. Qed.
+Print Assumptions C17_users_legacy_oob_refuted.
 
 (* ---------------------------------------------------------------- buffers *)
 (* PSUTIL_STRNCPY(dst, src, n), n >= 1: every write index is < n, for every source string,
@@ -88,44 +90,66 @@ Theorem C17_pid_range_total : forall v,
 Proof. exact check_pid_range_total. Qed.
 Print Assumptions C17_pid_range_total.
 
-(* every entry point, every argument tuple: undefined behaviour arises in the model only in
-   proc_ioprio_set with an ioclass outside [0, 2^18) *)
-Theorem C17_entry_points_defined : forall ep args w, c_entry ep args = CUB w ->
-  ep = EpIoprioSet /\ exists p c d cz, args = [p; c; d] /\ conv_i c = Val cz /\ ~ (0 <= cz < 2 ^ 18).
-Proof. exact entry_ub_only_ioprio. Qed.
+(* every entry point of _psutil_linux / _psutil_posix, every argument tuple: the outcome in the model is an
+   exception, None or a call into the OS -- never undefined behaviour *)
+Theorem C17_entry_points_defined : forall ep args, is_ub (c_entry ep args) = false.
+Proof. exact entry_no_ub. Qed.
 Print Assumptions C17_entry_points_defined.
 
-(* 'ioclass << 13' is defined exactly for 0 <= ioclass < 2^18 *)
-Theorem C17_ioprio_shift : forall c d, ioprio_value c d = None <-> ~ (0 <= c < 2 ^ 18).
+(* Process.ionice(ioclass, value): never undefined; an ioclass outside 0..3 is a ValueError; what reaches
+   ioprio_set(2) is a C int, equal to class * 2^13 + data for the accepted pairs *)
+Theorem C17_ionice_defined : forall pid ioclass value, is_ub (ionice_set pid ioclass value) = false.
+Proof. exact ionice_no_ub. Qed.
+Print Assumptions C17_ionice_defined.
+
+Theorem C17_ionice_rejects : forall pid ioclass value,
+  ~ (0 <= ioclass <= 3) -> ionice_set pid ioclass value = CExc ValueError.
+Proof. exact ionice_rejects. Qed.
+Print Assumptions C17_ionice_rejects.
+
+Theorem C17_ioprio_value : forall c d,
+  INT_MIN <= ioprio_value_u c d <= INT_MAX /\
+  (0 <= c <= 3 -> 0 <= d <= 7 -> ioprio_value_u c d = c * 8192 + d).
+Proof. exact (fun c d => conj (ioprio_value_u_range c d) (ioprio_value_u_valid c d)). Qed.
+Print Assumptions C17_ioprio_value.
+
+(* fixed defect (a87b45e): the legacy signed 'ioclass << 13' is defined exactly for 0 <= ioclass < 2^18 ... *)
+Theorem C17_ioprio_legacy_shift : forall c d, ioprio_value c d = None <-> ~ (0 <= c < 2 ^ 18).
 Proof. exact ioprio_value_none. Qed.
-Print Assumptions C17_ioprio_shift.
+Print Assumptions C17_ioprio_legacy_shift.
 
-(* known finding: the Python layer lets such an ioclass through *)
-Theorem C17_ionice_refuted : exists ioclass value,
-  0 <= value <= 7 /\ ionice_set false 0 ioclass value = CUB "shift".
-Proof. exact ionice_refuted. Qed.
-Print Assumptions C17_ionice_refuted.
+(* ... that was the only undefined behaviour of the legacy entry points ... *)
+Theorem C17_entry_points_legacy : forall ep args w, c_entry_legacy ep args = CUB w ->
+  ep = EpIoprioSet /\ exists p c d cz, args = [p; c; d] /\ conv_i c = Val cz /\ ~ (0 <= cz < 2 ^ 18).
+Proof. exact entry_legacy_ub. Qed.
+Print Assumptions C17_entry_points_legacy.
 
-(* with the proposed range check no call of ionice() reaches the shift undefined *)
-Theorem C17_ionice_fixed : forall pid ioclass value, is_ub (ionice_set true pid ioclass value) = false.
-Proof. exact ionice_fixed_no_ub. Qed.
-Print Assumptions C17_ionice_fixed.
+(* ... reachable directly and through the public ionice(), whose legacy Python layer let such a class through *)
+Theorem C17_entry_points_legacy_refuted : c_entry_legacy EpIoprioSet [PInt 0; PInt (-1); PInt 0] = CUB "shift".
+Proof. exact entry_legacy_refuted. Qed.
+Print Assumptions C17_entry_points_legacy_refuted.
 
-(* ethtool speed: defined for speed_hi < 0x8000, and in [0, INT_MAX] *)
-Theorem C17_nic_speed : forall hi lo, 0 <= hi < 2 ^ 15 ->
-  exists v, nic_speed false hi lo = Some v /\ 0 <= v <= INT_MAX.
-Proof. exact nic_speed_defined. Qed.
+Theorem C17_ionice_legacy_refuted : exists ioclass value,
+  0 <= value <= 7 /\ ionice_set_legacy 0 ioclass value = CUB "shift".
+Proof. exact ionice_legacy_refuted. Qed.
+Print Assumptions C17_ionice_legacy_refuted.
+
+(* ethtool speed: ((uint32_t)speed_hi << 16) | speed is defined for every answer and the speed reported is in [0, INT_MAX] *)
+Theorem C17_nic_speed : forall hi lo, exists v, nic_speed hi lo = Some v /\ 0 <= v <= INT_MAX.
+Proof. exact nic_speed_total. Qed.
 Print Assumptions C17_nic_speed.
 
-(* known finding: SPEED_UNKNOWN (speed_hi = 0xFFFF) overflows 'speed_hi << 16' *)
-Theorem C17_nic_speed_refuted :
-  exists hi lo, 0 <= hi < 2 ^ 16 /\ 0 <= lo < 2 ^ 16 /\ nic_speed false hi lo = None.
-Proof. exact nic_speed_refuted. Qed.
-Print Assumptions C17_nic_speed_refuted.
+(* fixed defect (301715a): the legacy signed 'speed_hi << 16' was defined for speed_hi < 0x8000 only;
+   SPEED_UNKNOWN (speed_hi = 0xFFFF) overflowed *)
+Theorem C17_nic_speed_legacy : forall hi lo, 0 <= hi < 2 ^ 15 ->
+  exists v, nic_speed_legacy hi lo = Some v /\ 0 <= v <= INT_MAX.
+Proof. exact nic_speed_legacy_defined. Qed.
+Print Assumptions C17_nic_speed_legacy.
 
-Theorem C17_nic_speed_fixed : forall hi lo, exists v, nic_speed true hi lo = Some v /\ 0 <= v <= INT_MAX.
-Proof. exact nic_speed_fixed. Qed.
-Print Assumptions C17_nic_speed_fixed.
+Theorem C17_nic_speed_legacy_refuted :
+  exists hi lo, 0 <= hi < 2 ^ 16 /\ 0 <= lo < 2 ^ 16 /\ nic_speed_legacy hi lo = None.
+Proof. exact nic_speed_legacy_refuted. Qed.
+Print Assumptions C17_nic_speed_legacy_refuted.
 
 (* ---------------------------------------------------------------- interface flags *)
 Theorem C17_net_if_flags : forall flags i name, 0 <= flags -> In (i, name) spec_iff ->
@@ -159,24 +183,32 @@ Theorem C17_partitions_filter_partial : forall all fstypes fs es,
 Proof. exact partitions_loop_exact. Qed.
 Print Assumptions C17_partitions_filter_partial.
 
-(* disk_partitions(all=True) end to end: every entry, with device, mount point, type and options *)
-Theorem C17_partitions_all : forall fixed fsb es,
+(* disk_partitions(all=True) end to end: every entry, with device, mount point, type and options --
+   whatever bytes they contain (lines that fit glibc's buffer) *)
+Theorem C17_partitions_all : forall fsb es,
   forallb wf_ment es = true -> forallb short_line es = true -> forallb plain_dev es = true ->
-  (fixed = true \/ forallb utf8_ok es = true) ->
-  disk_partitions fixed true fsb (k_mounts es) = Val (spec_partitions true [] es).
+  disk_partitions true fsb (k_mounts es) = Val (spec_partitions true [] es).
 Proof. exact disk_partitions_all. Qed.
 Print Assumptions C17_partitions_all.
 
-(* known finding: a line longer than 4095 bytes comes back cut (type and options empty) *)
+(* known finding (not repaired): a line longer than 4095 bytes comes back cut (type and options empty) *)
 Theorem C17_mounts_longline_refuted : exists es,
   forallb wf_ment es = true /\ forallb plain_dev es = true /\ forallb utf8_ok es = true /\
-  exists rows, disk_partitions false true [] (k_mounts es) = Val rows /\ map m_type rows = [[]].
+  exists rows, disk_partitions true [] (k_mounts es) = Val rows /\ map m_type rows = [[]].
 Proof. exact mounts_longline_refuted. Qed.
 Print Assumptions C17_mounts_longline_refuted.
 
-(* known finding: one non-UTF-8 byte in type/options makes the whole call raise *)
-Theorem C17_mounts_nonutf8_refuted : exists es,
+(* fixed defect (0d52d5b): the legacy code needed UTF-8 type and options ... *)
+Theorem C17_partitions_legacy_all : forall fsb es,
+  forallb wf_ment es = true -> forallb short_line es = true -> forallb plain_dev es = true ->
+  forallb utf8_ok es = true ->
+  disk_partitions_legacy true fsb (k_mounts es) = Val (spec_partitions true [] es).
+Proof. exact disk_partitions_legacy_all. Qed.
+Print Assumptions C17_partitions_legacy_all.
+
+(* ... one non-UTF-8 byte made the whole call raise *)
+Theorem C17_mounts_legacy_nonutf8_refuted : exists es,
   forallb wf_ment es = true /\ forallb plain_dev es = true /\ forallb short_line es = true /\
-  disk_partitions false true [] (k_mounts es) = Exc UnicodeError.
-Proof. exact mounts_nonutf8_refuted. Qed.
-Print Assumptions C17_mounts_nonutf8_refuted.
+  disk_partitions_legacy true [] (k_mounts es) = Exc UnicodeError.
+Proof. exact mounts_legacy_nonutf8_refuted. Qed.
+Print Assumptions C17_mounts_legacy_nonutf8_refuted.
